@@ -89,6 +89,27 @@ type view struct {
 	valueOnly bool    // only the value sorts are run on this view
 	maxSetQ   int     // largest subset, quick
 	maxSetT   int     // largest subset, thorough
+	// calendar views (homogeneous sets of weekday or of month names in one spelling):
+	calendarOnly bool   // only the contextual and date sorts are run on this view
+	fullSet      bool   // the complete key set of the view is a data set as well
+	spelling     string // appended to the input class of a signature ("" = not a calendar view)
+}
+
+// curView is the view the case under execution belongs to (set by the worker
+// loops and by replay). It only contributes the spelling suffix of signatures.
+var curView *view
+
+// sigClass is the input class as it appears in a signature: inside a calendar
+// view the spelling form of the names is part of the class, so that a failure
+// on a homogeneous set of recognised names (every full name / abbreviation in
+// lower case, Capitalised, UPPER case) is a defect class of its own and is not
+// one of the classes of the main view (mixtures of calendar names and other
+// keys, two spellings of one day).
+func sigClass(class string) string {
+	if curView != nil && curView.spelling != "" {
+		return class + "/" + curView.spelling
+	}
+	return class
 }
 
 const (
@@ -116,11 +137,128 @@ func poolIdx(names ...string) []int {
 	return out
 }
 
-var views = []view{
+var views = append(baseViews, calendarViews()...)
+
+var baseViews = []view{
 	{name: "main", keys: poolRange(0, 21), values: []int64{1, 2}, maxSetQ: 4, maxSetT: 5},
 	{name: "beyond-2^53", keys: append(poolRange(21, 28), poolIdx("2", "10", "-3", "1x", "a")...), values: []int64{1, 2}, maxSetQ: 4, maxSetT: 5},
 	// totals whose difference does not fit int64 (value sorts only)
 	{name: "huge-totals", keys: poolIdx("1", "a", "mon", "B"), values: []int64{1, 2, 6000000000000000000, -6000000000000000000, maxInt64, minInt64}, valueOnly: true, maxSetQ: 3, maxSetT: 4},
+}
+
+// ---- calendar views
+//
+// S7 "`contextual` orders weekday and month names by calendar position": every
+// weekday and every month, as full name and as 3-letter abbreviation, in lower
+// case, Capitalised and UPPER case (the shortest names: sun, may; the longest:
+// wednesday, september). One view per (weekday|month, spelling form), plus
+// views in which every name has a different form. The names are a table: the
+// reference states the position of each, nothing is parsed.
+
+var weekdayNames = []string{"sunday", "monday", "tuesday", "wednesday", "thursday", "friday", "saturday"}
+var monthNames = []string{"january", "february", "march", "april", "may", "june", "july", "august", "september", "october", "november", "december"}
+
+var spellingForms = []string{"full-name-lower-case", "full-name-capitalised", "full-name-upper-case", "abbreviation-lower-case", "abbreviation-capitalised", "abbreviation-upper-case"}
+
+// spell writes a lower-case ASCII name in one of the six forms.
+func spell(name string, form int) string {
+	if form >= 3 {
+		name = name[:3]
+	}
+	b := []byte(name)
+	for i := range b {
+		if form%3 == 2 || (form%3 == 1 && i == 0) {
+			b[i] -= 'a' - 'A'
+		}
+	}
+	return string(b)
+}
+
+// calendarKey returns the pool index of a weekday/month spelling, adding it
+// when the pool does not have it yet (mon, Tue, sunday, ... are shared with the
+// main view).
+func calendarKey(s string, k kind, pos int) int {
+	if i := poolIndex(s); i >= 0 {
+		if pool[i].kind != k || pool[i].pos != pos {
+			panic("harness: pool disagrees about " + s)
+		}
+		return i
+	}
+	pool = append(pool, poolKey{s: s, kind: k, pos: pos})
+	return len(pool) - 1
+}
+
+func calendarViews() []view {
+	var out []view
+	for _, set := range []struct {
+		name  string
+		names []string
+		kind  kind
+	}{{"weekday", weekdayNames, kWeekday}, {"month", monthNames, kMonth}} {
+		mk := func(tag, spelling string, form func(pos int) int) {
+			vw := view{name: set.name + "/" + tag, values: []int64{1, 2}, maxSetQ: 3, maxSetT: 5, calendarOnly: true, fullSet: true, spelling: spelling}
+			for pos, n := range set.names {
+				vw.keys = append(vw.keys, calendarKey(spell(n, form(pos)), set.kind, pos))
+			}
+			out = append(out, vw)
+		}
+		for f, tag := range spellingForms {
+			f := f
+			mk(tag, tag, func(int) int { return f })
+		}
+		// every name in another form than its neighbours; a: wed, SEPTEMBER; b: Wednesday, SEP
+		mk("mixed-spellings-a", "mixed-spellings", func(pos int) int { return pos % 6 })
+		mk("mixed-spellings-b", "mixed-spellings", func(pos int) int { return (pos + 4) % 6 })
+	}
+	return out
+}
+
+// forEachBoundedPerm: the permutations handed to the sorter for a data set too
+// large for all n! of them: every affine arrangement i -> (o + i*s) mod n of
+// the given order (all n rotations for s=1, all n rotations of the reversal
+// for s=n-1, the interleavings for the other strides coprime to n), and each
+// of them with every adjacent transposition: n*phi(n)*n permutations.
+func forEachBoundedPerm(n int, f func(p []int) bool) {
+	gcd := func(a, b int) int {
+		for b != 0 {
+			a, b = b, a%b
+		}
+		return a
+	}
+	p := make([]int, n)
+	for s := 1; s < n; s++ {
+		if gcd(s, n) != 1 {
+			continue
+		}
+		for o := 0; o < n; o++ {
+			for i := range p {
+				p[i] = (o + i*s) % n
+			}
+			if !f(p) {
+				return
+			}
+			for j := 0; j+1 < n; j++ {
+				p[j], p[j+1] = p[j+1], p[j]
+				ok := f(p)
+				p[j], p[j+1] = p[j+1], p[j]
+				if !ok {
+					return
+				}
+			}
+		}
+	}
+}
+
+// allPermsUpTo: data sets up to this size are handed over in every
+// permutation, larger ones (the 12 months) in the bounded family above.
+const allPermsUpTo = 8
+
+func forEachDataPerm(n int, f func(p []int) bool) {
+	if n <= allPermsUpTo {
+		forEachPerm(n, f)
+		return
+	}
+	forEachBoundedPerm(n, f)
 }
 
 func poolIndex(s string) int {
